@@ -14,6 +14,7 @@ import (
 	"pgregory.net/rapid"
 
 	"verifharness/h"
+	"verifharness/ref/ed"
 )
 
 func TestMain(m *testing.M) { h.Main(m) }
@@ -60,6 +61,43 @@ func (r *shortReader) Read(p []byte) (int, error) {
 	}
 	r.data = r.data[n:]
 	return n, nil
+}
+
+type failingReader struct{}
+
+func (failingReader) Read([]byte) (int, error) { return 0, io.ErrUnexpectedEOF }
+
+type badSig struct {
+	kind         string
+	pk, msg, sig []byte
+}
+
+// rejected derives from an honest (pk, msg, sig) one rejected triple per rejection reason of Verify.
+func rejected(pk, msg, sig []byte) []badSig {
+	cp := func(b []byte) []byte { return append([]byte{}, b...) }
+	var out []badSig
+	out = append(out, badSig{"length", cp(pk), cp(msg), cp(sig[:63])})
+	sL := cp(sig)
+	copy(sL[32:], ed.LEBytes(ed.L, 32)) // S = L: not canonical
+	out = append(out, badSig{"non-canonical S", cp(pk), cp(msg), sL})
+	for j := 1; j < 256; j++ { // R that is not a point encoding, S canonical
+		r := cp(sig)
+		r[0] ^= byte(j)
+		if _, ok := ed.DecodeZIP215(r[:32]); !ok {
+			out = append(out, badSig{"undecodable R", cp(pk), cp(msg), r})
+			break
+		}
+	}
+	for j := 1; j < 256; j++ {
+		a := cp(pk)
+		a[0] ^= byte(j)
+		if _, ok := ed.DecodeZIP215(a); !ok {
+			out = append(out, badSig{"undecodable A", a, cp(msg), cp(sig)})
+			break
+		}
+	}
+	out = append(out, badSig{"wrong message", cp(pk), append(cp(msg), 1), cp(sig)})
+	return out
 }
 
 func checkSign(c signCase) (h.Info, error) {
@@ -111,6 +149,35 @@ func checkSign(c signCase) (h.Info, error) {
 	}
 	if !bytes.Equal(signer.Public().(ed25519.PublicKey), pub) {
 		return info, fmt.Errorf("Signer.Public mismatch")
+	}
+	// like crypto/ed25519 the Signer ignores its random source: any reader (plentiful, empty, failing)
+	// gives the deterministic RFC 8032 signature
+	for ri, mk := range []func() io.Reader{
+		func() io.Reader { return bytes.NewReader(bytes.Repeat([]byte{0x5a}, 256)) },
+		func() io.Reader { return &shortReader{data: bytes.Repeat([]byte{1}, 64)} },
+		func() io.Reader { return &shortReader{} },
+		func() io.Reader { return failingReader{} },
+	} {
+		wantR, wantErr := std.Sign(mk(), msg, crypto.Hash(0))
+		gotR, gotErr := signer.Sign(mk(), msg, crypto.Hash(0))
+		if wantErr != nil {
+			return info, fmt.Errorf("PRECONDITION: crypto/ed25519 Signer failed with reader %d: %v", ri, wantErr)
+		}
+		if gotErr != nil || !bytes.Equal(gotR, wantR) {
+			return info, fmt.Errorf("PrivateKey.Sign(rand = reader #%d, msg %x, Hash(0)) with seed %x = %x, %v; crypto/ed25519 with the same arguments gives %x", ri, msg, seed, gotR, gotErr, wantR)
+		}
+	}
+	// rejected verifications of every kind in between must not disturb later signing / verifying
+	for _, bad := range rejected(pub, msg, want) {
+		if ed25519.Verify(ed25519.PublicKey(bad.pk), bad.msg, bad.sig) {
+			return info, fmt.Errorf("Verify accepts the %s variant of an honest signature (pk %x msg %x sig %x)", bad.kind, bad.pk, bad.msg, bad.sig)
+		}
+		if s6 := ed25519.Sign(priv, msg); !bytes.Equal(s6, want) {
+			return info, fmt.Errorf("after a Verify call rejected for %s (pk %x, msg %x, sig %x), Sign(seed %x, msg %x) = %x, crypto/ed25519 %x", bad.kind, bad.pk, bad.msg, bad.sig, seed, msg, s6, want)
+		}
+		if !ed25519.Verify(pub, msg, want) {
+			return info, fmt.Errorf("after a Verify call rejected for %s (pk %x, msg %x, sig %x), Verify rejects the honest signature of seed %x msg %x", bad.kind, bad.pk, bad.msg, bad.sig, seed, msg)
+		}
 	}
 	for _, hf := range []crypto.Hash{crypto.SHA512, crypto.SHA256, crypto.SHA1} {
 		digest := sha512.Sum512(msg)
@@ -194,6 +261,67 @@ func TestSign(t *testing.T) {
 		Gen: genSign, Check: checkSign,
 		Require: []string{"len/empty", "len/extra-padding-block", "len/block-boundary", "len/multi-block", "len/short"},
 		Rule:    "32-byte seeds (random, zero, ones) x messages of length 0..2000 weighted to SHA-512 block/padding boundaries: key, public key, signature, crypto.Signer output byte-identical to crypto/ed25519; deterministic; Verify accepts; pre-hash options refused; GenerateKey(reader) = NewKeyFromSeed; all non-trivial; distinct by (seed, msg)",
+	})
+}
+
+// ---- concurrent callers with different keys ----
+
+type concCase struct {
+	Cases []signCase `json:"cases"`
+	Iters int        `json:"iters"`
+}
+
+func checkConcurrent(c concCase) (h.Info, error) {
+	info := h.Info{Class: fmt.Sprintf("goroutines=%d", len(c.Cases)), NT: len(c.Cases) > 1}
+	type exp struct {
+		priv stded.PrivateKey
+		sig  []byte
+	}
+	want := make([]exp, len(c.Cases))
+	for i, sc := range c.Cases {
+		if len(sc.Seed) != 32 {
+			return info, fmt.Errorf("PRECONDITION: seed length")
+		}
+		k := stded.NewKeyFromSeed(sc.Seed)
+		want[i] = exp{k, stded.Sign(k, sc.Msg)}
+	}
+	err := h.Parallel(len(c.Cases), func(g int) error {
+		sc, w := c.Cases[g], want[g]
+		for it := 0; it < c.Iters; it++ {
+			priv := ed25519.NewKeyFromSeed(sc.Seed)
+			if !bytes.Equal(priv, w.priv) {
+				return fmt.Errorf("goroutine %d: NewKeyFromSeed(%x) = %x, crypto/ed25519 %x", g, []byte(sc.Seed), []byte(priv), []byte(w.priv))
+			}
+			if sig := ed25519.Sign(priv, sc.Msg); !bytes.Equal(sig, w.sig) {
+				return fmt.Errorf("goroutine %d (of %d, each with its own key), iteration %d: Sign(seed %x, msg %x) = %x, crypto/ed25519 %x", g, len(c.Cases), it, []byte(sc.Seed), []byte(sc.Msg), sig, w.sig)
+			}
+			if !ed25519.Verify(priv.Public().(ed25519.PublicKey), sc.Msg, w.sig) {
+				return fmt.Errorf("goroutine %d (of %d, each with its own key), iteration %d: Verify rejects the honest signature of seed %x msg %x", g, len(c.Cases), it, []byte(sc.Seed), []byte(sc.Msg))
+			}
+		}
+		return nil
+	})
+	return info, err
+}
+
+func TestConcurrent(t *testing.T) {
+	h.Run(t, h.Sub[concCase]{
+		Prop: "C07", Name: "concurrent-callers", N: 60,
+		Gen: func(t *rapid.T) concCase {
+			c := concCase{Iters: 40}
+			n := h.OneOf(t, "g", 2, 4, 8, 16)
+			for i := 0; i < n; i++ {
+				sc := genSign(t)
+				if len(sc.Msg) > 300 {
+					sc.Msg = sc.Msg[:300]
+				}
+				c.Cases = append(c.Cases, sc)
+			}
+			return c
+		},
+		Check:   checkConcurrent,
+		Require: []string{"goroutines=2", "goroutines=8"},
+		Rule:    "schedules: 2..16 goroutines released together, each deriving its own key and signing/verifying its own message 40 times; every key and signature must equal crypto/ed25519's (computed beforehand); all non-trivial",
 	})
 }
 
